@@ -2,6 +2,8 @@
 from ..eng import EngineModel
 from .. import rules_db as rd
 from .. import rules_query as rq
+from .. import rules_state as rs
+from .. import rules_extra as rx
 
 
 def check(repo, rep, tier):
@@ -27,3 +29,7 @@ def check(repo, rep, tier):
     sm = rd.StoreModel(em)
     rd.rule_no_read_yield_write(em, rep, 'C07.L2', sm)
     rd.rule_remove_by_identity(em, rep, 'C07.L3', sm)
+    # each list element is an immutable, independent copy (C13)
+    fr = rs.rule_store_snapshot(em, rep, 'C07.S1')
+    rs.rule_fresh_per_use(em, rep, 'C07.S2', fr)
+    rx.rule_facts_immutable(em, rep, 'C07.S4')
